@@ -299,6 +299,9 @@ class FakeTimeModule:
         raise pse.HarnessError("time.%s not modelled" % k)
 
 
+_PARSED = {}  # concrete date string -> (instant, microsecond, offset): pure function of the string
+
+
 class FakeDateutil:
     def __init__(self, world):
         w = world
@@ -308,11 +311,16 @@ class FakeDateutil:
                 return FakeDatetime(w, s.t, s.micro, s.off)
             if isinstance(s, str) and tokens.has_key(s):
                 raise pse.Concretisation("dateutil.parse of token")
-            import dateutil.parser
-            d = dateutil.parser.parse(s)
-            if d.tzinfo is None:
-                raise pse.HarnessError("naive date string in manifest: %r" % s)
-            off = int(d.utcoffset().total_seconds())
-            return FakeDatetime(w, int(d.replace(microsecond=0).timestamp()), d.microsecond, off)
+            key = str.__str__(s)
+            hit = _PARSED.get(key)
+            if hit is None:
+                import dateutil.parser
+                d = dateutil.parser.parse(s)
+                if d.tzinfo is None:
+                    raise pse.HarnessError("naive date string in manifest: %r" % s)
+                hit = (int(d.replace(microsecond=0).timestamp()), d.microsecond, int(d.utcoffset().total_seconds()))
+                if len(_PARSED) < 20000:
+                    _PARSED[key] = hit
+            return FakeDatetime(w, hit[0], hit[1], hit[2])
 
         self.parser = types.SimpleNamespace(parse=parse)
